@@ -100,7 +100,7 @@ def templated(rng):
     """structured scenarios (mostly valid, specific multi-step shapes) with random variation"""
     drv = rng.choice([0, 1, 1])
     cap = rng.choice([1, 2, 4, 1024])
-    t = rng.randrange(10)
+    t = rng.choice(list(range(10)) + [9, 9, 6])
     S = []
     if t == 0:
         # several operations queued on ONE descriptor, one of them (often the head) is cancelled
@@ -181,6 +181,8 @@ def templated(rng):
         k = rng.randrange(1, 4)
         for i in range(k):
             S.append((rng.choice([1, 1, 2]), i % 2, 4))
+        # the submission queue is handed to the kernel; nothing is ready yet
+        S.append((5, rng.choice([0, 0, 5]), 0))
         for r in range(2):
             if rng.random() < 0.8:
                 S.append((4, r, rng.choice([1, 2, 4])))
@@ -188,7 +190,7 @@ def templated(rng):
             S.append((7, rng.randrange(k), 0))
         if rng.random() < 0.2:
             S.append((rng.choice([8, 9]), rng.randrange(k), 0))
-        S.append((10, rng.choice([0, 1]), 0))
+        S.append((10, rng.choice([0, 0, 1]), 0))
     else:
         # cancel after completion / twice, neighbours keep their data
         S += [(1, 0, 4), (1, 0, 4), (4, 0, 8), (5, 10, 0), (5, 5, 0)]
